@@ -234,13 +234,13 @@ func c37OpenStore(t *testing.T) (*Store, func()) {
 	if err := s.Bootstrap(NewServer(s.ID(), s.Addr(), true)); err != nil {
 		t.Fatalf("bootstrap: %v", err)
 	}
-	if _, err := s.WaitForLeader(10 * time.Second); err != nil {
+	if _, err := s.WaitForLeader(60 * time.Second); err != nil {
 		t.Fatalf("leader: %v", err)
 	}
 	return s, func() { s.Close(true); ln.Close() }
 }
 
-func c37Exec(s *Store, stmts ...string) (uint64, error) {
+func c37ExecOnce(s *Store, stmts ...string) (uint64, error) {
 	res, idx, err := s.Execute(context.Background(), executeRequestFromStrings(stmts, false, false))
 	if err != nil {
 		return 0, err
@@ -251,6 +251,33 @@ func c37Exec(s *Store, stmts ...string) (uint64, error) {
 		}
 	}
 	return idx, nil
+}
+
+func c37Transient(err error) bool {
+	m := strings.ToLower(err.Error())
+	for _, p := range []string{"not leader", "leadership lost", "leadership transfer", "timeout waiting for leader",
+		"timed out enqueuing", "enqueue timeout", "no leader", "leader not known"} {
+		if strings.Contains(m, p) {
+			return true
+		}
+	}
+	return false
+}
+
+// c37Exec retries the transient errors of a busy machine (leadership lost and regained, an
+// enqueue timeout) for up to 90 s. A statement repeated after such an error may have been
+// applied twice: harmless for every use below (filler rows, deletes, IF NOT EXISTS schema);
+// the sequence-numbered writes use c37ExecOnce and a fresh number per attempt instead.
+func c37Exec(s *Store, stmts ...string) (uint64, error) {
+	deadline := time.Now().Add(90 * time.Second)
+	for {
+		idx, err := c37ExecOnce(s, stmts...)
+		if err == nil || !c37Transient(err) || time.Now().After(deadline) {
+			return idx, err
+		}
+		time.Sleep(100 * time.Millisecond)
+		s.WaitForLeader(30 * time.Second)
+	}
 }
 
 // c37Seqs opens backup bytes (optionally gzip) as a SQLite database and returns the seq set.
@@ -307,25 +334,36 @@ func TestVerifC37Store(t *testing.T) {
 
 	s, closeStore := c37OpenStore(t)
 	defer closeStore()
-	if _, err := c37Exec(s, "CREATE TABLE t (id INTEGER PRIMARY KEY, seq INTEGER)", "CREATE TABLE big (id INTEGER PRIMARY KEY, b TEXT)"); err != nil {
+	if _, err := c37Exec(s, "CREATE TABLE IF NOT EXISTS t (id INTEGER PRIMARY KEY, seq INTEGER)", "CREATE TABLE IF NOT EXISTS big (id INTEGER PRIMARY KEY, b TEXT)"); err != nil {
 		t.Fatalf("create: %v", err)
 	}
 	seq := int64(0)
 	var wmu sync.Mutex
 	idxOf := map[int64]uint64{} // seq -> log index
 	write := func() error {
-		wmu.Lock()
-		seq++
-		q := seq
-		wmu.Unlock()
-		idx, err := c37Exec(s, fmt.Sprintf("INSERT INTO t(seq) VALUES(%d)", q))
-		if err != nil {
-			return err
+		deadline := time.Now().Add(90 * time.Second)
+		for {
+			wmu.Lock()
+			seq++
+			q := seq
+			wmu.Unlock()
+			idx, err := c37ExecOnce(s, fmt.Sprintf("INSERT INTO t(seq) VALUES(%d)", q))
+			if err != nil {
+				if c37Transient(err) && time.Now().Before(deadline) {
+					// whether number q was written is unknown: it is simply not tracked (the oracle
+					// only speaks about writes whose log index is known); try again with a new one
+					rep.Count("live:write-retried-after-transient-error")
+					time.Sleep(100 * time.Millisecond)
+					s.WaitForLeader(30 * time.Second)
+					continue
+				}
+				return err
+			}
+			wmu.Lock()
+			idxOf[q] = idx
+			wmu.Unlock()
+			return nil
 		}
-		wmu.Lock()
-		idxOf[q] = idx
-		wmu.Unlock()
-		return nil
 	}
 	for i := 0; i < 5; i++ {
 		if err := write(); err != nil {
@@ -482,7 +520,7 @@ func TestVerifC37Store(t *testing.T) {
 		up := backup.NewUploader(st, e2e, 10*time.Millisecond)
 		ctx, cancel := context.WithCancel(context.Background())
 		done := up.Start(ctx, nil)
-		deadline := time.Now().Add(20 * time.Second)
+		deadline := time.Now().Add(90 * time.Second)
 		for st.calls.Load() == 0 && time.Now().Before(deadline) {
 			time.Sleep(5 * time.Millisecond)
 		}
@@ -518,7 +556,7 @@ func TestVerifC37Store(t *testing.T) {
 		ctx, cancel := context.WithCancel(context.Background())
 		done := up.Start(ctx, nil)
 		waitLabel := func(idx uint64) bool {
-			deadline := time.Now().Add(20 * time.Second)
+			deadline := time.Now().Add(90 * time.Second)
 			for time.Now().Before(deadline) {
 				st.mu.Lock()
 				id := st.remoteID
@@ -543,7 +581,7 @@ func TestVerifC37Store(t *testing.T) {
 		}()
 		select {
 		case <-holding:
-		case <-time.After(10 * time.Second):
+		case <-time.After(90 * time.Second):
 			t.Fatalf("operator backup never started writing")
 		}
 		// the gate is held now; this write stays in the WAL until a snapshot can checkpoint it
@@ -623,7 +661,7 @@ func TestVerifC37Store(t *testing.T) {
 		// quiesce: storage works from now on; wait for the final upload
 		st.failPct.Store(0)
 		final := s.DBAppliedIndex()
-		deadline := time.Now().Add(20 * time.Second)
+		deadline := time.Now().Add(90 * time.Second)
 		for time.Now().Before(deadline) {
 			st.mu.Lock()
 			id := st.remoteID
@@ -638,7 +676,7 @@ func TestVerifC37Store(t *testing.T) {
 		st.mu.Unlock()
 		replay := map[string]interface{}{"vacuum": vac, "compress": comp, "seed": vfSeed()}
 		if lastID != strconv.FormatUint(final, 10) {
-			rep.Fail("live:change-never-uploaded", fmt.Sprintf("store applied index %d, last successful upload labelled %q after 20 s of working storage", final, lastID), replay)
+			rep.Fail("live:change-never-uploaded", fmt.Sprintf("store applied index %d, last successful upload labelled %q after 90 s of working storage", final, lastID), replay)
 		}
 		// idle: at least 8 more rounds, no Upload call
 		calls0, checks0 := st.calls.Load(), c37ProviderChecks()
